@@ -108,6 +108,11 @@ func httpParseResponseLine(line []byte) (resp httpResponseLine, err error) {
 		return resp, ErrMalformedResponse
 	}
 
+	// status-code = 3DIGIT
+	if len(status) != 3 {
+		return resp, ErrMalformedResponse
+	}
+
 	var convErr error
 	resp.status, convErr = asciiToInt(status)
 	if convErr != nil {
